@@ -145,6 +145,13 @@ def jobs(tier, seed):
     J += servertext_jobs(tier)
     J += dup_jobs(tier)
     J += servers_update_jobs(tier)
+    J.append(dict(name="c16_initopts", harness="initopts.c",
+                  real=LIB + ["src/lib/str/ares_strsplit.c", "src/lib/ares_options.c", "src/lib/ares_update_servers.c", "src/lib/dsa/ares_llist.c"],
+                  support=SUP + ["slist_ref.c", "lock_ghost.c"], unwind=8, unwindset=us({"vp_bytes.0": 200}),
+                  witnesses=["end", "accepted", "timeout in ms", "timeout in seconds"],
+                  bound="ONE ares_init_by_options on a fresh channel: options struct of ARBITRARY bytes, ARBITRARY mask over the scalar "
+                        "options (flags, timeout in seconds or ms, tries, ndots, maxtimeout, ports, buffer sizes, EDNS size, udp max "
+                        "queries, rotate/norotate)"))
     J.append(dict(name="c16_sockfuncs_install", harness="sockfuncs_install.c", real=["src/lib/ares_set_socket_functions.c", "src/lib/str/ares_str.c", "src/lib/ares_library_init.c"],
                   support=["vp_rt.c", "valloc.c", "memloops.c", "lock_ghost.c"], unwind=8, witnesses=["end", "installed", "refused"],
                   kf_group="c16_sockfuncs_install",
